@@ -175,7 +175,36 @@ func (c *Ctx) one(m *dtab.Machine, env map[string]sym.Expr, rule, site, point st
 		c.violate(rule, site, fmt.Sprintf("%d paths at %s", len(ps), point), fd.Pos(), "the decision function is not single-valued at "+point)
 		return nil
 	}
-	return ps[0]
+	// values computed by an inlined helper are conditional expressions: settle them at this point
+	q := *ps[0]
+	q.Ret = append([]sym.Expr{}, q.Ret...)
+	for i, v := range q.Ret {
+		q.Ret[i] = reduceIte(v, env)
+	}
+	q.Sends = append([]sym.Expr{}, q.Sends...)
+	for i, v := range q.Sends {
+		q.Sends[i] = reduceIte(v, env)
+	}
+	return &q
+}
+
+// reduceIte chooses the branches of conditional expressions whose conditions are decided by env.
+func reduceIte(e sym.Expr, env map[string]sym.Expr) sym.Expr {
+	for {
+		it, ok := e.(sym.Ite)
+		if !ok {
+			return e
+		}
+		b, decided := dtab.EvalBool(it.Cond, env, numOracle)
+		if !decided {
+			return e
+		}
+		if b {
+			e = it.A
+		} else {
+			e = it.B
+		}
+	}
 }
 
 func (c *Ctx) machineOK(m *dtab.Machine, rule, site string, fd *ast.FuncDecl) bool {
@@ -372,6 +401,9 @@ func (c *Ctx) splitTable(fi *load.FuncInfo) {
 		if is, ok := s.(*ast.IfStmt); ok && containsSend(is) {
 			decide = is
 		}
+		if snd, ok := s.(*ast.SendStmt); ok && decide == nil {
+			decide = snd // result <- decision(buyAction, sellAction): the callee is read by the extractor
+		}
 	}
 	if len(inputs) != 2 || decide == nil {
 		c.violate("decision-table", site, "shape", loop.Pos(), "Split's loop no longer receives one buy and one sell action and then decides (undecided, fails closed)")
@@ -464,6 +496,7 @@ func (c *Ctx) voteTable(fi *load.FuncInfo, typ string, spec func(b, h, s, k int)
 	// the decision may have been moved into a declared function: result <- decideVote(buy, hold, sell, ...)
 	var decideCall *ast.CallExpr
 	var decideFn *load.FuncInfo
+	var decideLit *ast.FuncLit // … or into a closure bound to a local: result <- decide(buy, sell)
 	if decide == nil {
 		for _, s := range loop.Body.List {
 			if snd, ok := s.(*ast.SendStmt); ok {
@@ -472,6 +505,8 @@ func (c *Ctx) voteTable(fi *load.FuncInfo, typ string, spec func(b, h, s, k int)
 						if dfi := c.P.Decls[fn.Origin()]; dfi != nil && dfi.Decl.Body != nil {
 							decideCall, decideFn, decide = call, dfi, snd
 						}
+					} else if lit := funcLitOf(info, fi.Decl, call.Fun); lit != nil {
+						decideCall, decideLit, decide = call, lit, snd
 					}
 				}
 			}
@@ -508,8 +543,12 @@ func (c *Ctx) voteTable(fi *load.FuncInfo, typ string, spec func(b, h, s, k int)
 		}
 	}
 	var m *dtab.Machine
-	if decideFn != nil {
-		m = dtab.FromFuncDecl(decideFn.Pkg.TypesInfo, decideFn.Decl)
+	if decideFn != nil || decideLit != nil {
+		if decideFn != nil {
+			m = dtab.FromFuncDecl(decideFn.Pkg.TypesInfo, decideFn.Decl)
+		} else {
+			m = dtab.FromFuncLit(info, decideLit)
+		}
 		if len(m.Params) != len(decideCall.Args) {
 			c.violate("decision-table", site, "shape", loop.Pos(), "the decision function is not called with one argument per parameter (undecided, fails closed)")
 			return
@@ -538,7 +577,7 @@ func (c *Ctx) voteTable(fi *load.FuncInfo, typ string, spec func(b, h, s, k int)
 						env[d.name] = sym.N(v)
 					}
 				}
-				if decideFn != nil {
+				if decideFn != nil || decideLit != nil {
 					// bind the callee's parameters to the values of the arguments at this point
 					for i, nm := range names {
 						if nm != "" {
